@@ -411,10 +411,23 @@ pub fn h_orswot_dup(inp: &Inp) -> u8 {
     }
 }
 
-//@ harness props=C02,C03,C08,C09,C20 covers=3,4,5 name=Orswot L_merge: merge(SPEC(U,K1), SPEC(U,K2)) == SPEC(U, K1 u K2) for all knowledge pairs (incl. pending removes, stale and equal states)
+/// compare one slice of two states: 0 = clock and table sizes, 1..=NM = the entry of member v-1,
+/// NM+1 = the pending-remove table. All slices equal <=> `==` (derived, field-wise).
+fn slice_eq(x: &Set, y: &Set, v: u8) -> bool {
+    if v == 0 {
+        x.clock == y.clock && x.entries.len() == y.entries.len() && x.deferred.len() == y.deferred.len()
+    } else if v <= NM {
+        x.entries.get(&(v - 1)) == y.entries.get(&(v - 1))
+    } else {
+        x.deferred == y.deferred
+    }
+}
+
+//@ harness props=C02,C03,C08,C09,C20 variants=NM+2 bounds=quick:small,thorough:base covers=3,4,5 name=Orswot L_merge: merge(SPEC(U,K1), SPEC(U,K2)) == SPEC(U, K1 u K2) for all knowledge pairs (incl. pending removes, stale and equal states); one output slice per variant
 #[no_mangle]
 pub fn h_orswot_merge(inp: &Inp) -> u8 {
     let mut i = In::new(inp);
+    let v = i.variant(NM + 2);
     let u = any_uni(&mut i);
     let k1 = any_know(&mut i, &u);
     let k2 = any_know(&mut i, &u);
@@ -425,13 +438,9 @@ pub fn h_orswot_merge(inp: &Inp) -> u8 {
     }
     let mut s = spec(&u, &k1, f1);
     let o = spec(&u, &k2, f2);
-    if s.validate_merge(&o).is_err() {
-        // correct use never double-spends a dot... unless one add carries several members (add_all)
-        return 6;
-    }
     s.merge(o);
     let k = union(&k1, &k2);
-    if !same(&s, &u, &k, f1) {
+    if !slice_eq(&s, &spec(&u, &k, f1), v) {
         return 0;
     }
     if subset(&k2, &k1) {
